@@ -271,6 +271,21 @@ def run (p : Pars) : Nat → List StepIn → State → Except Err State
       | .error e => .error e
       | .ok s' => run p (ti + 1) is s'
 
+/-- a history during which the PARAMETERS are changed between steps (`sim.pars.pregnancy.update(...)`,
+    `module.pars.update(...)`, `module.update_pars(...)` on an initialised sim): every step has its own `Pars` -/
+def runP : Nat → List (Pars × StepIn) → State → Except Err State
+  | _, [], s => .ok s
+  | ti, (p, i) :: is, s => match simStep p ti i s with
+      | .error e => .error e
+      | .ok s' => runP (ti + 1) is s'
+
+/-- the two views the code has of the gestation parameter agree: `dur_pregnancy` in module steps (`TimePar.values`, read by
+    `set_prognoses` and the prenatal edges) times the step length in years = `dur_pregnancy.to('year')` (read by
+    `make_embryos`).  `TimePar.set` / `Module.init_time` keep them in agreement; the correspondence checks it on every call. -/
+def Pars.coherent (p : Pars) : Prop := p.durPreg * p.dtYear = p.durPregYear
+
+instance (p : Pars) : Decidable p.coherent := by unfold Pars.coherent; exact inferInstance
+
 /-! ### invariants as executable checks (the driver evaluates them on OBSERVED states) -/
 
 def State.exclusive (s : State) : Bool := s.agents.all Agent.excl
